@@ -61,7 +61,7 @@ def check_case(acc, src, mode, origin):
     if kind != "syntax":
         acc.count("skipped_cpython_" + ("accepts" if kind == "tree" else "unavailable"))
         return
-    if not in_lexicon(src):
+    if not in_lexicon(src.replace("\0", "") if origin == "lexical" else src):  # (the lexical family places NUL characters on purpose)
         acc.count("skipped_not_python_lexicon")
         return
     out = base.parse(src, mode)
@@ -83,6 +83,9 @@ def check_case(acc, src, mode, origin):
         if _f02b_trigger(src, mode, val):
             acc.finding("F02b", src[:80])
             return
+        if mode == "eval" and _f02m_trigger(src):
+            acc.finding("F02m", src[:80])
+            return
         acc.violation("accepted-what-cpython-rejects", case, {"cpython": f"{val.msg} ({val.lineno}:{val.offset})"})
 
 
@@ -97,6 +100,13 @@ def _f02b_trigger(src, mode, val):
     if not re.search(r"invalid (octal|decimal|hexadecimal|binary|imaginary) literal", str(val.msg)) or not _NUM_KW.search(src):
         return False
     return base.cpython(_NUM_KW.sub(r"\1 \2", src), mode)[0] == "tree"
+
+
+def _f02m_trigger(src):
+    """F02m: eval mode only - the text ends in a line of blanks without a line end (CPython gives eval input no implicit newline, so that
+    line is an unexpected indent); counterfactual: without those blanks CPython accepts the expression"""
+    m = re.search(r"[\n\r]([ \t\f]+)\Z", src)
+    return bool(m) and base.cpython(src[: m.start(1)], "eval")[0] == "tree"
 
 
 def _f08a_trigger(src):
@@ -268,6 +278,11 @@ def lexical_cases():
         for head in ("x = {q}abc", "x = {q}", "f({q}a, b", "x = a + {q}it", "x = b{q}abc", "x = r{q}ab\\", "x = {q}ab\\\\", "if {q}a", "x = [{q}a,", "x = ({q}a", "x = {q}a{q} {q}b", "x = u{q}a # c", "print({q}a{q} + {q}"):
             for tail in ("{q}\n", "{q} + f(1)\n", "y = {q}d{q}\n", "{q}, 2)\n", "    {q}\n", "b{q}\n", "{q}]\n", "# {q}\n{q}\n", "\n{q}\n", "y = 1\nz = {q}\n", "{q}{q}{q}\n", "{q}; z = 1\n", "pass\n{q}k{q} {q}\n"):
                 yield (head + "\n" + tail).format(q=q)
+    for n in (100, 101, 120):
+        yield "".join(" " * i + "if 1:\n" for i in range(n)) + " " * n + "pass\n"
+        yield "def f():\n" + "".join(" " * (i + 1) + "while x:\n" for i in range(n)) + " " * (n + 1) + "y\n"
+    for t in ("x = 1 # {}\n", "x = f'a{}b'\n", "# {}\n", "x = f\"\"\"{{a}}{}\"\"\"\n", "x = 1{}\n", "\"\"\"{}\"\"\"\n", "x = rf'{}{{a}}'\n", "if a:\n    pass # {}\n", "x = f'{{a:{}}}'\n", "x = 'a{}'\n", "x {} = 1\n"):
+        yield t.format("\0")
     for field in ("{x! r}", "{x!  s}", "{x !r}", "{x!\tr}", "{x! r:>3}", "{x = ! r}", "{x!\\\nr}", "{x!}", "{x! }", "{x!r !s}", "{x!rs}", "{x! ra}", "{!r}", "{x!r:}", "{x !r :}",
                   "{lambda x:{1}}", "{1,lambda y:{y}}", "{lambda :{1}}", "{x if y else lambda :{1}}", "{lambda x:{1}!r}", "{lambda x:{1}:{2}}", "{a or lambda:{b}}", "{not lambda:{b}}", "{-1, lambda:{b}{c}}", "{*a, lambda:{b}}",
                   "{ lambda:{b}}", "{\\\nlambda x:{1}}", "{#c\nlambda x:{1}}", "{a if lambda:{b} else c}", "{lambda a=(1):{a}}", "{lambda *a, **k:{a}}", "{x:=lambda:{1}}", "{await lambda:{1}}", "{yield lambda:{1}}",
@@ -316,6 +331,9 @@ def run_shard(shard):
             check_case(acc, s, "exec", "layout")
         for s in lexical_cases():
             check_case(acc, s, "exec", "lexical")
+        for e in ("a", "a + b", "f(x)", "[1,\n 2]", "lambda: 0", "(a\n)", "a if b else c", "x\\\n + 1"):
+            for tail in ("\n ", "\n\t", "\n   ", "\n\n ", "\r\n ", " \n \n ", "\n\f "):
+                check_case(acc, e + tail, "eval", "lexical")
     elif kind == "corpus":
         stmts = []
         for path in shard["files"]:
